@@ -28,11 +28,14 @@ CHECKS['C03'] = dict(
          'bulk moves with bias <= size, non-aliasing parameters.')
 CHECKS['C14'] = dict(
     category='other', design_ref='DESIGN.md 5/C14',
-    technique='abstract interpretation over LLVM IR of every instantiated member (class invariant m_size <= N, slot accesses inside the inline array)',
+    technique='abstract interpretation over LLVM IR of every instantiated member (class invariant m_size <= N, slot accesses inside the inline array); slot typestate (RAW/LIVE) by trace partitioning on the entry size and small arguments',
     text='For static_vector<int,4>, static_vector<VTr,4> (probe element type with external special members), static_string<4> and '
          'their std_portable twins: every constructor and method re-establishes m_size <= N, every element construct/destroy/assign '
          'and every byte copy lies inside the inline storage, push/emplace refuse when full, resize clamps - for all states and '
-         'arguments. Content equality and exactly-once destruction are not decided by this check.',
+         'arguments. Element lifetimes (static_vector<VTr,N>, N = 1, 2, 4 and the twin): slot typestate RAW/LIVE decided per '
+         '(member, entry size, position, count, aliasing of the value argument) partition - constructors only on RAW slots, '
+         'destructors/assignments/reads only on LIVE ones, exactly [0,m_size) LIVE at every return - hence every constructed '
+         'element is destroyed exactly once. Content equality is not decided by this check.',
     note='Trusted: clang lowering, irdump, absint/lin, the argument contracts in checks/c14.py (iterators of erase point into the '
          'container, range arguments delimit one array). N is instantiated at 4.')
 CHECKS['C04'] = dict(
@@ -103,13 +106,17 @@ CHECKS['C08'] = dict(
          'covered through strchr/strcspn.')
 CHECKS['C02'] = dict(
     category='other', design_ref='DESIGN.md 5/C02',
-    technique='abstract interpretation over LLVM IR of every instantiated member under the class contract (size <= capacity, m_data owns capacity*sizeof(T)); IR dataflow rules for flat_map/flat_set',
+    technique='abstract interpretation over LLVM IR of every instantiated member under the class contract (size <= capacity, m_data owns capacity*sizeof(T)); slot typestate (RAW/LIVE) and block ownership by trace partitioning on small sizes; IR dataflow rules for flat_map/flat_set',
     text='For igris::vector<int> and igris::vector<VTr> (probe element with external special members): every constructor and '
          'method re-establishes m_size <= m_capacity and leaves in m_data a block of exactly the recorded capacity (or null), '
          'every element read/write/construct/destroy/assign lies inside the allocation, size bookkeeping follows the '
          'definition of each operation - for all sizes, positions and arguments. flat_map/flat_set: no member returns a '
          'reference to a temporary, insert and count search with the same function, all lookups scan by key equality. '
-         'Sequence equality with std::vector/std::map and exactly-once element lifetimes are not decided here.',
+         'Element lifetimes of igris::vector<VTr>: slot typestate RAW/LIVE and block ownership decided per (member, size 0..4, '
+         'capacity, position, count, aliasing of value/range arguments) partition, thorough tier sizes 0..7 - constructors only '
+         'on RAW slots, destructors/assignments/reads only on LIVE ones, exactly [0,m_size) LIVE at every return, no live slot '
+         'in a deallocated block, every dropped block deallocated once; larger sizes rest on the uniformity of the loops. '
+         'Sequence equality with std::vector/std::map is not decided here.',
     note='Trusted: clang lowering (libstdc++ helper templates are interpreted as IR), irdump, absint/lin, the argument '
          'contracts in checks/c02.py (iterators point into the vector at positions <= size).')
 # checks delivered with a manifest fragment under proposed/<id>/manifest.json
